@@ -496,8 +496,11 @@ theorem parsNums_map_num (U : List Rat) : parsNums (U.map Par.num) = some U := b
   | cons x xs ih => simp [parsNums, ih]
 
 /-- A **lawful interpretation** of commands in a monoid `M`: what the merge rules assume about the
-meaning of the operation families.  `sem f [a, b] = f a * f b` is "`a` first, then `b`". -/
-structure Lawful {M : Type} [Monoid M] (f : Cmd → M) where
+meaning of the operation families.  `sem f [a, b] = f a * f b` is "`a` first, then `b`".
+The laws are required for commands whose target list satisfies `dom`: the optimiser only ever
+merges single-target commands, so `optimize_sem` takes `dom = fun r => r.length = 1` and assumes
+nothing about multi-mode families; `merge_sound_partial` (direct calls of `merge`) takes any `dom`. -/
+structure Lawful {M : Type} [Monoid M] (dom : List Nat → Prop) (f : Cmd → M) where
   /-- values of the symbols (measured / free parameters) -/
   θ : Nat → Rat
   /-- gate families: class, targets, remaining parameters ↦ one-parameter group -/
@@ -509,37 +512,56 @@ structure Lawful {M : Type} [Monoid M] (f : Cmd → M) where
   /-- the meaning does not depend on the identity of the `Command` object -/
   f_id : ∀ (c : Cmd) (i : Nat), f { c with id := i } = f c
   /-- a gate is its family at the first parameter, negated when `dagger` is set -/
-  gate_f : ∀ (c : Cmd) (p : Par) (t : List Par), ruleOf c.cls = .gate → c.cls ∉ knownUnlawful →
-    c.pars = p :: t → f c = G c.cls c.regs t (sg c.dagger * p.val θ)
-  gate_add : ∀ k r t x y, G k r t (x + y) = G k r t x * G k r t y
-  gate_zero : ∀ k r t, G k r t 0 = 1
-  chan_f : ∀ (c : Cmd) (x : Rat) (t : List Par), ruleOf c.cls = .channel → c.pars = .num x :: t →
-    f c = C c.cls c.regs t x
+  gate_f : ∀ (c : Cmd) (p : Par) (t : List Par), dom c.regs → ruleOf c.cls = .gate →
+    c.cls ∉ knownUnlawful → c.pars = p :: t → f c = G c.cls c.regs t (sg c.dagger * p.val θ)
+  gate_add : ∀ k r t x y, dom r → G k r t (x + y) = G k r t x * G k r t y
+  gate_zero : ∀ k r t, dom r → G k r t 0 = 1
+  chan_f : ∀ (c : Cmd) (x : Rat) (t : List Par), dom c.regs → ruleOf c.cls = .channel →
+    c.pars = .num x :: t → f c = C c.cls c.regs t x
   /-- channels are multiplicative in the first parameter -/
-  chan_mul : ∀ k r t x y, C k r t (y * x) = C k r t x * C k r t y
-  chan_one : ∀ k r t, C k r t 1 = 1
-  mat_f : ∀ (c : Cmd) (A : List Rat), ruleOf c.cls = .matrix → parsNums c.pars = some A →
-    f c = D c.cls c.regs A
+  chan_mul : ∀ k r t x y, dom r → C k r t (y * x) = C k r t x * C k r t y
+  chan_one : ∀ k r t, dom r → C k r t 1 = 1
+  mat_f : ∀ (c : Cmd) (A : List Rat), dom c.regs → ruleOf c.cls = .matrix →
+    parsNums c.pars = some A → f c = D c.cls c.regs A
   /-- first `A`, then `B` is the matrix product `B @ A` -/
-  mat_mul : ∀ k r (A B : List Rat), A.length = B.length →
+  mat_mul : ∀ k r (A B : List Rat), dom r → A.length = B.length →
     D k r (matMul (Nat.sqrt A.length) B A) = D k r A * D k r B
-  mat_one : ∀ k r n, D k r (identMat n) = 1
+  mat_one : ∀ k r n, dom r → D k r (identMat n) = 1
   /-- a preparation absorbs a preparation that precedes it on the same targets -/
-  prep_absorb : ∀ a b : Cmd, ruleOf a.cls = .prep → ruleOf b.cls = .prep → a.regs = b.regs →
-    a.deps = [] → b.deps = [] → f a * f b = f b
+  prep_absorb : ∀ a b : Cmd, dom a.regs → ruleOf a.cls = .prep → ruleOf b.cls = .prep →
+    a.regs = b.regs → a.deps = [] → b.deps = [] → f a * f b = f b
   /-- a Fourier gate followed by its inverse is the identity -/
-  fourier_inv : ∀ a b : Cmd, ruleOf a.cls = .fourier → a.cls = b.cls → a.regs = b.regs →
-    a.dagger ≠ b.dagger → f a * f b = 1
+  fourier_inv : ∀ a b : Cmd, dom a.regs → ruleOf a.cls = .fourier → a.cls = b.cls →
+    a.regs = b.regs → a.dagger ≠ b.dagger → f a * f b = 1
 
 section LawfulProofs
-variable {M : Type} [Monoid M] {f : Cmd → M}
+variable {M : Type} [Monoid M] {f : Cmd → M} {dom : List Nat → Prop}
+
+/-- laws on a larger domain give laws on a smaller one -/
+def Lawful.mono {dom' : List Nat → Prop} (L : Lawful dom f) (h : ∀ r, dom' r → dom r) : Lawful dom' f where
+  θ := L.θ
+  G := L.G
+  C := L.C
+  D := L.D
+  f_id := L.f_id
+  gate_f := fun c p t hd => L.gate_f c p t (h _ hd)
+  gate_add := fun k r t x y hd => L.gate_add k r t x y (h _ hd)
+  gate_zero := fun k r t hd => L.gate_zero k r t (h _ hd)
+  chan_f := fun c x t hd => L.chan_f c x t (h _ hd)
+  chan_mul := fun k r t x y hd => L.chan_mul k r t x y (h _ hd)
+  chan_one := fun k r t hd => L.chan_one k r t (h _ hd)
+  mat_f := fun c A hd => L.mat_f c A (h _ hd)
+  mat_mul := fun k r A B hd => L.mat_mul k r A B (h _ hd)
+  mat_one := fun k r n hd => L.mat_one k r n (h _ hd)
+  prep_absorb := fun a b hd => L.prep_absorb a b (h _ hd)
+  fourier_inv := fun a b hd => L.fourier_inv a b (h _ hd)
 
 /-- what a sound `merge` result has to satisfy -/
 def MergeSound (f : Cmd → M) (a b : Cmd) (r : MergeRes) : Prop :=
   (r = .identity → f a * f b = 1) ∧
   (∀ op, r = .merged op → op.deps = [] ∧ ∀ i, f a * f b = f { op with id := i, regs := a.regs })
 
-theorem gateMerge_sound (L : Lawful f) (a b : Cmd) (hr : a.regs = b.regs) (hda : a.deps = [])
+theorem gateMerge_sound (L : Lawful dom f) (a b : Cmd) (hdom : dom a.regs) (hr : a.regs = b.regs) (hda : a.deps = [])
     (hrule : ruleOf a.cls = .gate) (hK : a.cls ∉ knownUnlawful) : MergeSound f a b (gateMerge a b) := by
   unfold gateMerge
   split
@@ -551,8 +573,8 @@ theorem gateMerge_sound (L : Lawful f) (a b : Cmd) (hr : a.regs = b.regs) (hda :
       split
       · rename_i htt
         subst htt
-        have hfa := L.gate_f a pa ta hrule hK hpa
-        have hfb := L.gate_f b pb ta (hcls ▸ hrule) (hcls ▸ hK) hpb
+        have hfa := L.gate_f a pa ta hdom hrule hK hpa
+        have hfb := L.gate_f b pb ta (hr ▸ hdom) (hcls ▸ hrule) (hcls ▸ hK) hpb
         rw [← hcls, ← hr] at hfb
         split
         · rename_i p0 hadd
@@ -561,20 +583,20 @@ theorem gateMerge_sound (L : Lawful f) (a b : Cmd) (hr : a.regs = b.regs) (hda :
           · rename_i h0
             subst h0
             refine ⟨fun _ => ?_, by simp⟩
-            rw [hfa, hfb, ← L.gate_add, ← hs]
-            simp [Par.val, L.gate_zero]
+            rw [hfa, hfb, ← L.gate_add _ _ _ _ _ hdom, ← hs]
+            simp [Par.val, L.gate_zero _ _ _ hdom]
           · refine ⟨by simp, ?_⟩
             intro op hop
             simp only [MergeRes.merged.injEq] at hop
             subst hop
             refine ⟨hda, fun i => ?_⟩
-            rw [L.gate_f { a with pars := p0 :: ta, id := i, regs := a.regs } p0 ta hrule hK rfl]
-            rw [hfa, hfb, ← L.gate_add, ← hs]
+            rw [L.gate_f { a with pars := p0 :: ta, id := i, regs := a.regs } p0 ta hdom hrule hK rfl]
+            rw [hfa, hfb, ← L.gate_add _ _ _ _ _ hdom, ← hs]
         · exact ⟨by simp, by simp⟩
       · exact ⟨by simp, by simp⟩
     · exact ⟨by simp, by simp⟩
 
-theorem channelMerge_sound (L : Lawful f) (a b : Cmd) (hr : a.regs = b.regs) (hda : a.deps = [])
+theorem channelMerge_sound (L : Lawful dom f) (a b : Cmd) (hdom : dom a.regs) (hr : a.regs = b.regs) (hda : a.deps = [])
     (hrule : ruleOf a.cls = .channel) : MergeSound f a b (channelMerge a b) := by
   unfold channelMerge
   split
@@ -586,28 +608,29 @@ theorem channelMerge_sound (L : Lawful f) (a b : Cmd) (hr : a.regs = b.regs) (hd
       split
       · rename_i htt
         subst htt
-        have hfa := L.chan_f a x ta hrule hpa
-        have hfb := L.chan_f b y ta (hcls ▸ hrule) hpb
+        have hfa := L.chan_f a x ta hdom hrule hpa
+        have hfb := L.chan_f b y ta (hr ▸ hdom) (hcls ▸ hrule) hpb
         rw [← hcls, ← hr] at hfb
         split
         · rename_i h1
           refine ⟨fun _ => ?_, by simp⟩
-          rw [hfa, hfb, ← L.chan_mul, h1, L.chan_one]
+          rw [hfa, hfb, ← L.chan_mul _ _ _ _ _ hdom, h1, L.chan_one _ _ _ hdom]
         · refine ⟨by simp, ?_⟩
           intro op hop
           simp only [MergeRes.merged.injEq] at hop
           subst hop
           refine ⟨hda, fun i => ?_⟩
-          rw [L.chan_f { a with pars := .num (y * x) :: ta, id := i, regs := a.regs } (y * x) ta hrule rfl]
-          rw [hfa, hfb, ← L.chan_mul]
+          rw [L.chan_f { a with pars := .num (y * x) :: ta, id := i, regs := a.regs } (y * x) ta hdom hrule rfl]
+          rw [hfa, hfb, ← L.chan_mul _ _ _ _ _ hdom]
       · exact ⟨by simp, by simp⟩
     · exact ⟨by simp, by simp⟩
 
-theorem mat_f' (L : Lawful f) (a : Cmd) (U : List Rat) (i : Nat) (hrule : ruleOf a.cls = .matrix) :
+theorem mat_f' (L : Lawful dom f) (a : Cmd) (U : List Rat) (i : Nat) (hdom : dom a.regs)
+    (hrule : ruleOf a.cls = .matrix) :
     f { a with pars := U.map Par.num, id := i, regs := a.regs } = L.D a.cls a.regs U :=
-  L.mat_f _ U hrule (parsNums_map_num U)
+  L.mat_f _ U hdom hrule (parsNums_map_num U)
 
-theorem matrixMerge_sound (L : Lawful f) (a b : Cmd) (hr : a.regs = b.regs) (hda : a.deps = [])
+theorem matrixMerge_sound (L : Lawful dom f) (a b : Cmd) (hdom : dom a.regs) (hr : a.regs = b.regs) (hda : a.deps = [])
     (hrule : ruleOf a.cls = .matrix) : MergeSound f a b (matrixMerge a b) := by
   unfold matrixMerge
   split
@@ -616,8 +639,8 @@ theorem matrixMerge_sound (L : Lawful f) (a b : Cmd) (hr : a.regs = b.regs) (hda
     simp only [ne_eq, not_not] at hcls
     split
     · rename_i A B hA hB
-      have hfa := L.mat_f a A hrule hA
-      have hfb := L.mat_f b B (hcls ▸ hrule) hB
+      have hfa := L.mat_f a A hdom hrule hA
+      have hfb := L.mat_f b B (hr ▸ hdom) (hcls ▸ hrule) hB
       rw [← hcls, ← hr] at hfb
       split
       · exact ⟨by simp, by simp⟩
@@ -627,17 +650,17 @@ theorem matrixMerge_sound (L : Lawful f) (a b : Cmd) (hr : a.regs = b.regs) (hda
         split
         · rename_i hU
           refine ⟨fun _ => ?_, by simp⟩
-          rw [hfa, hfb, ← L.mat_mul _ _ A B hlen, hU, L.mat_one]
+          rw [hfa, hfb, ← L.mat_mul _ _ A B hdom hlen, hU, L.mat_one _ _ _ hdom]
         · refine ⟨by simp, ?_⟩
           intro op hop
           simp only [MergeRes.merged.injEq] at hop
           subst hop
           refine ⟨hda, fun i => ?_⟩
-          rw [mat_f' L a _ i hrule]
-          rw [hfa, hfb, ← L.mat_mul _ _ A B hlen]
+          rw [mat_f' L a _ i hdom hrule]
+          rw [hfa, hfb, ← L.mat_mul _ _ A B hdom hlen]
     · exact ⟨by simp, by simp⟩
 
-theorem prepMerge_sound (L : Lawful f) (a b : Cmd) (hr : a.regs = b.regs) (hda : a.deps = [])
+theorem prepMerge_sound (L : Lawful dom f) (a b : Cmd) (hdom : dom a.regs) (hr : a.regs = b.regs) (hda : a.deps = [])
     (hdb : b.deps = []) (hrule : ruleOf a.cls = .prep) : MergeSound f a b (prepMerge a b) := by
   unfold prepMerge
   split
@@ -649,10 +672,10 @@ theorem prepMerge_sound (L : Lawful f) (a b : Cmd) (hr : a.regs = b.regs) (hda :
     refine ⟨hdb, fun i => ?_⟩
     have : ({ b with id := i, regs := a.regs } : Cmd) = { b with id := i } := by rw [hr]
     rw [this, L.f_id b i]
-    exact L.prep_absorb a b hrule hb hr hda hdb
+    exact L.prep_absorb a b hdom hrule hb hr hda hdb
   · exact ⟨by simp, by simp⟩
 
-theorem fourierMerge_sound (L : Lawful f) (a b : Cmd) (hr : a.regs = b.regs)
+theorem fourierMerge_sound (L : Lawful dom f) (a b : Cmd) (hdom : dom a.regs) (hr : a.regs = b.regs)
     (hrule : ruleOf a.cls = .fourier) : MergeSound f a b (fourierMerge a b) := by
   unfold fourierMerge
   split
@@ -661,19 +684,19 @@ theorem fourierMerge_sound (L : Lawful f) (a b : Cmd) (hr : a.regs = b.regs)
     simp only [ne_eq, not_not] at hcls
     split
     · rename_i hd
-      exact ⟨fun _ => L.fourier_inv a b hrule hcls hr hd, by simp⟩
+      exact ⟨fun _ => L.fourier_inv a b hdom hrule hcls hr hd, by simp⟩
     · exact ⟨by simp, by simp⟩
 
 /-- every merge rule is sound for a lawful interpretation -/
-theorem opMerge_sound (L : Lawful f) (a b : Cmd) (hr : a.regs = b.regs) (hda : a.deps = [])
+theorem opMerge_sound (L : Lawful dom f) (a b : Cmd) (hdom : dom a.regs) (hr : a.regs = b.regs) (hda : a.deps = [])
     (hdb : b.deps = []) (hK : a.cls ∉ knownUnlawful) : MergeSound f a b (opMerge a b) := by
   unfold opMerge
   cases hrule : ruleOf a.cls with
-  | gate => exact gateMerge_sound L a b hr hda hrule hK
-  | channel => exact channelMerge_sound L a b hr hda hrule
-  | matrix => exact matrixMerge_sound L a b hr hda hrule
-  | prep => exact prepMerge_sound L a b hr hda hdb hrule
-  | fourier => exact fourierMerge_sound L a b hr hrule
+  | gate => exact gateMerge_sound L a b hdom hr hda hrule hK
+  | channel => exact channelMerge_sound L a b hdom hr hda hrule
+  | matrix => exact matrixMerge_sound L a b hdom hr hda hrule
+  | prep => exact prepMerge_sound L a b hdom hr hda hdb hrule
+  | fourier => exact fourierMerge_sound L a b hdom hr hrule
   | never => exact ⟨by simp, by simp⟩
 
 /-- well-formedness of a command: an operation with `ns = 1` has exactly one target (enforced by
@@ -695,7 +718,7 @@ theorem single_wire {c : Cmd} (hP : WFc c) (hns : nsOf c = some 1) (hd : c.deps 
   exact ⟨w, hw, by simp [Cmd.wires, hw, hd]⟩
 
 /-- the body of the loop of `optimize_circuit` is sound for every lawful interpretation -/
-theorem tryMerge_ok (L : Lawful f) (B : Nat) : TryOK f WFc (tryMerge B) := by
+theorem tryMerge_ok (L : Lawful (fun r => r.length = 1) f) (B : Nat) : TryOK f WFc (tryMerge B) := by
   have key : ∀ a b, WFc a → WFc b → ∀ s, tryMerge B a b = s → s ≠ .advance →
       ∃ w, a.regs = [w] ∧ a.wires = [w] ∧ b.wires = [w] ∧ MergeSound f a b (opMerge a b) ∧
         ((s = .identity ∧ opMerge a b = .identity) ∨
@@ -714,7 +737,7 @@ theorem tryMerge_ok (L : Lawful f) (B : Nat) : TryOK f WFc (tryMerge B) := by
         have : w' = w := by
           have := h1.2; rw [hrw, hrw'] at this; simpa using this.symm
         subst this
-        refine ⟨w', hrw, hww, hww', opMerge_sound L a b h1.2 hda hdb (ns1_not_knownUnlawful hns), ?_⟩
+        refine ⟨w', hrw, hww, hww', opMerge_sound L a b (by rw [hrw]; rfl) h1.2 hda hdb (ns1_not_knownUnlawful hns), ?_⟩
         cases hm : opMerge a b with
         | fail => rw [hm] at hs; exact absurd hs.symm hne
         | identity => rw [hm] at hs; exact Or.inl ⟨hs.symm, rfl⟩
@@ -785,5 +808,160 @@ theorem tryMerge_new_id {B : Nat} {a b m : Cmd} (h : tryMerge B a b = .merged m)
         subst h
         simp
   · cases h
+
+end SFV
+
+/-! ### completeness: the optimised row is a fixpoint — no two neighbours can be merged any more -/
+namespace SFV
+
+/-- neighbours `a`, `b` on a wire are left alone by the loop body -/
+def Stuck (try_ : Cmd → Cmd → Step) (a b : Cmd) : Prop := try_ a b = .advance
+
+/-- the zipper `(done, rest)` read as a list is a chain if `done` is one (backwards), `rest` is one, and
+the two ends are linked -/
+theorem zipper_chain (R : Cmd → Cmd → Prop) : ∀ (done rest : List Cmd),
+    List.IsChain (flip R) done → List.IsChain R rest →
+    (∀ d ∈ done.head?, ∀ a ∈ rest.head?, R d a) → List.IsChain R (done.reverse ++ rest) := by
+  intro done
+  induction done with
+  | nil => intro rest _ h _; simpa using h
+  | cons d ds ih =>
+    intro rest hd hr hl
+    have e : (d :: ds).reverse ++ rest = ds.reverse ++ (d :: rest) := by simp
+    rw [e]
+    refine ih (d :: rest) ?_ ?_ ?_
+    · cases ds with
+      | nil => exact List.IsChain.nil
+      | cons e es => exact (List.isChain_cons_cons.1 hd).2
+    · cases rest with
+      | nil => exact List.IsChain.singleton d
+      | cons a as => exact List.IsChain.cons_cons (hl d (by simp) a (by simp)) hr
+    · intro x hx a ha
+      simp only [List.head?_cons, Option.mem_def, Option.some.injEq] at ha
+      subst ha
+      cases ds with
+      | nil => simp at hx
+      | cons e es =>
+        simp only [List.head?_cons, Option.mem_def, Option.some.injEq] at hx
+        subst hx
+        exact (List.isChain_cons_cons.1 hd).1
+
+theorem chain_flip_cons (R : Cmd → Cmd → Prop) {a : Cmd} {done : List Cmd}
+    (hd : List.IsChain (flip R) done) (hl : ∀ d ∈ done.head?, R d a) : List.IsChain (flip R) (a :: done) := by
+  cases done with
+  | nil => exact List.IsChain.singleton a
+  | cons d ds => exact List.IsChain.cons_cons (hl d (by simp)) hd
+
+theorem chain_flip_tail (R : Cmd → Cmd → Prop) {d : Cmd} {ds : List Cmd}
+    (hd : List.IsChain (flip R) (d :: ds)) : List.IsChain (flip R) ds ∧ ∀ e ∈ ds.head?, R e d := by
+  cases ds with
+  | nil => exact ⟨List.IsChain.nil, by simp⟩
+  | cons e es =>
+    have := List.isChain_cons_cons.1 hd
+    refine ⟨this.2, ?_⟩
+    intro x hx
+    simp only [List.head?_cons, Option.mem_def, Option.some.injEq] at hx
+    subst hx
+    exact this.1
+
+/-- with enough fuel the loop returns a row in which every pair of neighbours is stuck -/
+theorem optLoop_chain (try_ : Cmd → Cmd → Step) : ∀ (fuel : Nat) (done rest : List Cmd),
+    2 * rest.length + done.length ≤ fuel → List.IsChain (flip (Stuck try_)) done →
+    (∀ d ∈ done.head?, ∀ a ∈ rest.head?, Stuck try_ d a) →
+    List.IsChain (Stuck try_) (optLoop try_ fuel done rest) := by
+  intro fuel
+  induction fuel with
+  | zero =>
+    intro done rest h _ _
+    have hr : rest = [] := List.eq_nil_of_length_eq_zero (by omega)
+    have hd : done = [] := List.eq_nil_of_length_eq_zero (by omega)
+    subst hr; subst hd
+    simp [optLoop_zero]
+  | succ fuel ih =>
+    intro done rest h hd hl
+    match rest, h, hl with
+    | [], _, hl =>
+      rw [optLoop_nil]
+      exact zipper_chain _ done [] hd List.IsChain.nil hl
+    | [a], _, hl =>
+      rw [optLoop_single]
+      exact zipper_chain _ done [a] hd (List.IsChain.singleton a) hl
+    | a :: b :: rest, h, hl =>
+      simp only [List.length_cons] at h
+      rw [optLoop_succ]
+      cases ht : try_ a b with
+      | advance =>
+        simp only
+        refine ih (a :: done) (b :: rest) (by simp only [List.length_cons]; omega) ?_ ?_
+        · exact chain_flip_cons _ hd (fun d hd' => hl d hd' a (by simp))
+        · intro d hd' x hx
+          simp only [List.head?_cons, Option.mem_def, Option.some.injEq] at hd' hx
+          subst hd'; subst hx
+          exact ht
+      | identity =>
+        cases done with
+        | nil =>
+          simp only
+          exact ih [] rest (by simp only [List.length_nil]; omega) List.IsChain.nil (by simp)
+        | cons d ds =>
+          simp only [List.length_cons] at h ⊢
+          obtain ⟨h1, h2⟩ := chain_flip_tail _ hd
+          refine ih ds (d :: rest) (by simp only [List.length_cons]; omega) h1 ?_
+          intro e he x hx
+          simp only [List.head?_cons, Option.mem_def, Option.some.injEq] at hx
+          subst hx
+          exact h2 e he
+      | merged m =>
+        cases done with
+        | nil =>
+          simp only
+          exact ih [] (m :: rest) (by simp only [List.length_cons, List.length_nil]; omega)
+            List.IsChain.nil (by simp)
+        | cons d ds =>
+          simp only [List.length_cons] at h ⊢
+          obtain ⟨h1, h2⟩ := chain_flip_tail _ hd
+          refine ih ds (d :: m :: rest) (by simp only [List.length_cons]; omega) h1 ?_
+          intro e he x hx
+          simp only [List.head?_cons, Option.mem_def, Option.some.injEq] at hx
+          subst hx
+          exact h2 e he
+
+/-- on a row of stuck neighbours the loop changes nothing -/
+theorem optLoop_of_chain (try_ : Cmd → Cmd → Step) : ∀ (fuel : Nat) (done rest : List Cmd),
+    List.IsChain (Stuck try_) rest → optLoop try_ fuel done rest = done.reverse ++ rest := by
+  intro fuel
+  induction fuel with
+  | zero => intro done rest _; exact optLoop_zero _ _ _
+  | succ fuel ih =>
+    intro done rest hc
+    match rest, hc with
+    | [], _ => exact optLoop_nil _ _ _
+    | [a], _ => exact optLoop_single _ _ _ _
+    | a :: b :: rest, hc =>
+      have h := List.isChain_cons_cons.1 hc
+      rw [optLoop_succ, show try_ a b = Step.advance from h.1]
+      simp only
+      rw [ih (a :: done) (b :: rest) h.2]
+      simp
+
+/-- whether a pair is stuck does not depend on the offset used for new identities -/
+theorem tryMerge_stuck_iff (B B' : Nat) (a b : Cmd) : Stuck (tryMerge B) a b ↔ Stuck (tryMerge B') a b := by
+  unfold Stuck tryMerge
+  split
+  · split
+    · simp
+    · cases opMerge a b <;> simp
+  · simp
+
+theorem optRow_chain (B : Nat) (row : List Cmd) : List.IsChain (Stuck (tryMerge B)) (optRow B row) :=
+  optLoop_chain (tryMerge B) (optFuel row.length) [] row (by simp [optFuel]) List.IsChain.nil (by simp)
+
+theorem optRow_idem (B B' : Nat) (row : List Cmd) : optRow B' (optRow B row) = optRow B row := by
+  have h := optRow_chain B row
+  have h' : List.IsChain (Stuck (tryMerge B')) (optRow B row) :=
+    h.imp fun a b hab => (tryMerge_stuck_iff B B' a b).1 hab
+  unfold optRow at h' ⊢
+  rw [optLoop_of_chain (tryMerge B') _ [] _ h']
+  simp
 
 end SFV
